@@ -323,6 +323,22 @@ var schemaMutations = []schemaMutation{
 		d.Fields = append(d.Fields, &ast.FieldDefinition{Name: "viaNamespace", Type: ast.NonNullNamedType(ns[r.Intn(len(ns))].Name, nil)})
 		return true
 	}},
+	{"ns_in_boundary_object", false, func(r *rand.Rand, doc *ast.SchemaDocument) bool {
+		// a namespace type behind a field of a @boundary object: boundary objects are not namespaces
+		ns := nsDefs(doc)
+		var bnd []*ast.Definition
+		for _, d := range doc.Definitions {
+			if d.Kind == ast.Object && d.Directives.ForName("boundary") != nil && d.Directives.ForName("namespace") == nil {
+				bnd = append(bnd, d)
+			}
+		}
+		if len(ns) == 0 || len(bnd) == 0 {
+			return false
+		}
+		d := bnd[r.Intn(len(bnd))]
+		d.Fields = append(d.Fields, &ast.FieldDefinition{Name: "viaNamespace", Type: ast.NonNullNamedType(ns[r.Intn(len(ns))].Name, nil)})
+		return true
+	}},
 	{"ns_in_interface", false, func(r *rand.Rand, doc *ast.SchemaDocument) bool {
 		// a namespace type behind an interface field (a new interface, or an existing one together with its implementers
 		// that are namespaces already): interfaces are "non-namespace objects" for this rule as well
